@@ -69,13 +69,15 @@ let where_of_states (l : V.hstate list) =
     tagname = true; special = List.exists is_special_state l }
 
 let finding_tag ?(clause = "") ~(text : V.n list) ~(parsed : string) (w : where) : string =
-  if (has_prefix "comment_token_in_output" clause || has_prefix "structure_differs_from_the_authors_markup" clause) && V.finding_D45 text then "\tfinding=D45"
+  if (has_prefix "comment_token_in_output" clause || has_prefix "structure_differs_from_the_authors_markup" clause
+      || has_prefix "untrusted_data_consumed_as_comment" clause) && V.finding_D45 text then "\tfinding=D45"
   else if w.script && V.finding_D13 text then "\tfinding=D13"
   else if w.doctype && V.finding_D42 text then "\tfinding=D42"
   else begin
     let trees = try trees_of_wire parsed with _ -> [] in
     if w.tagname && V.finding_D43 trees then "\tfinding=D43"
     else if Drv_tmpl.split_name_finding (string_of_bytes text) then "\tfinding=D48"
+    else if Drv_tmpl.branch_at_value_finding (string_of_bytes text) then "\tfinding=D50"
     else if V.finding_D1 trees then "\tfinding=D1"
     else ""
   end
@@ -155,6 +157,6 @@ let () =
                   end
               done) spans;
           let b = match !bad with Some b -> b | None -> "?" in
-          specfail id ("untrusted_data_consumed_as_" ^ b ^ finding_tag ~text ~parsed !w)
+          specfail id ("untrusted_data_consumed_as_" ^ b ^ finding_tag ~clause:("untrusted_data_consumed_as_" ^ b) ~text ~parsed !w)
         end
       end)
